@@ -127,7 +127,7 @@ class ValidateTool(BaseTool):
                 current = Path("/")
                 for part in absolute.parts[1:]:  # Skip root
                     current = current / part
-                    if current.exists() and current.is_symlink():
+                    if current.is_symlink():
                         # Found a symlink - check if it's a system symlink
                         # System symlinks are typically in the first 2-3 components
                         # and resolve to /private/* or other system paths
